@@ -120,7 +120,9 @@ fn craft(codec: CodecKind, comp: Option<CompKind>, c: &Crafted) -> (Frame, bool,
     }
     if let Some(Invalid::ForCodec) = c.invalid {
         let raw: Vec<u8> = match codec {
-            CodecKind::String => vec![b'o', b'k', 0xff, 0xfe, 0xc0],
+            // not UTF-8 in the middle, or a text cut inside its last character
+            CodecKind::String if c.repeat % 2 == 0 => vec![b'o', b'k', 0xff, 0xfe, 0xc0],
+            CodecKind::String => vec![b'p', b'r', b'i', b'c', b'e', b':', b' ', b'5', 0xe2, 0x82],
             CodecKind::Bincode => {
                 let full = BincodeCodec::<Rec>::default().encode(rec_of(0, 40, 7)).unwrap();
                 full[..full.len() / 2].to_vec()
@@ -169,7 +171,7 @@ pub fn gen_script(rng: &mut Rng, c14_only: bool) -> HostileScript {
         .map(|_| {
             if c14_only || rng.chance(1, 5) {
                 if rng.chance(1, 3) {
-                    Crafted { msgs: vec![], batched: false, mutations: vec![], invalid: Some(Invalid::ForCodec) , repeat: 1 }
+                    Crafted { msgs: vec![], batched: false, mutations: vec![], invalid: Some(Invalid::ForCodec), repeat: rng.usize(0, 1) }
                 } else if rng.chance(1, 2) {
                     Crafted { msgs: vec![(rng.usize(0, 60), rng.next())], batched: false, mutations: vec![], invalid: Some(Invalid::CutCompressed { cut: rng.usize(1, 4) }), repeat: 1 }
                 } else {
